@@ -255,10 +255,29 @@ func (r *Rng) Leaf(cx *CritCtx) *model.Crit {
 		c.Arg = r.operand(cx, f)
 	case model.OpIn:
 		n := r.Range(1, 4)
-		if r.P(12) {
-			n = r.Range(8, 12) // long lists (an implementation may switch to a lookup table)
+		litOnly := false
+		if r.P(16) {
+			// long lists (an implementation may switch to a lookup table above 8, 16, 32 or 64 elements), most of
+			// them made of literals only: the same numbers as other kinds, other types, duplicates
+			n = Pick(r, []int{8, 12, 16, 17, 33, 40, 70})
+			litOnly = r.P(75)
 		}
 		for i := 0; i < n; i++ {
+			if litOnly {
+				v := r.literalFor(cx, f)
+				if i >= 4 && r.P(50) {
+					v = r.MixedNum() // filler the field rarely holds, as int64 / uint64 / float64
+				}
+				if a, isArr := v.([]any); isArr && len(a) == 0 || v == nil && r.Bool() {
+					v = r.SmallInt()
+				}
+				o := model.L(v)
+				if cx.GoTypes {
+					o.Go = goVariant(r, o.Val)
+				}
+				c.Args = append(c.Args, o)
+				continue
+			}
 			c.Args = append(c.Args, r.operand(cx, f))
 		}
 	case model.OpContains:
